@@ -149,6 +149,18 @@ Proof.
 Qed.
 Print Assumptions C07_latent_columns.
 
+(* The BATCH (draw-oracle) model weights every row by the column of ITS OWN sampled parent configuration:
+   at an evidence node each row's weight is multiplied by entry e of node_dist for that row - rows are
+   never grouped, so two parent configurations whose columns differ (however slightly: 0 vs 1e-9) give
+   different factors.  pgmpy reaches the rows through an index of unique weight vectors; the correspondence
+   run compares its weights with this model at 1e-13 relative on CPDs with near-identical distinct columns. *)
+Theorem C07_lw_batch_rowwise : forall b c e rows rows',
+  lw_evidence_node b c e rows = Ok rows' ->
+  Forall2 (fun rw rw' => exists w, node_dist b c (lw_evid c) (fst rw) = Ok w /\
+                                   rw' = ((cvar c, e) :: fst rw, snd rw * nth e w 0)) rows rows'.
+Proof. exact lw_evidence_node_rowwise. Qed.
+Print Assumptions C07_lw_batch_rowwise.
+
 (* What the property needs from _adjusted_weights.  Every law theorem above is about the ADJUSTED vector:
    Model.fwd_dist / lw_dist draw from [node_w] = adjusted (node_dist ...), the vector pgmpy hands to
    numpy.random.choice (compared call by call in the correspondence run).  Under wf_bn the columns sum to
